@@ -6,6 +6,8 @@ import LMV.Model.Abc
 import Mathlib.Algebra.Field.Rat
 import Mathlib.Algebra.Order.Ring.Rat
 import Mathlib.Algebra.BigOperators.Group.List.Basic
+import Mathlib.Algebra.Order.BigOperators.Group.List
+import Mathlib.Algebra.Order.Field.Basic
 import Mathlib.Tactic.Ring
 import Mathlib.Tactic.Linarith
 import Mathlib.Tactic.FieldSimp
@@ -693,6 +695,195 @@ example :
   decide +kernel
 
 end bounds
+
+/-! ### (6) backgrounds, pseudocounts and symbol counts -/
+
+section background
+
+/-- the tie to the regenerated alphabet tables: `symbols()` enumerates `0..K` in order and the
+    wildcard (default symbol) is the last one, for both alphabets -/
+theorem tables_symbols :
+    dna.symbols = List.range dna.K ∧ dna.dflt = dna.K - 1 ∧ 2 ≤ dna.K ∧
+    protein.symbols = List.range protein.K ∧ protein.dflt = protein.K - 1 ∧ 2 ≤ protein.K := by
+  decide +kernel
+
+theorem natSum_eq (n : Nat) (f : Nat → Nat) : natSum n f = ((List.range n).map f).sum := by
+  unfold natSum
+  have : ∀ (l : List Nat) (a : Nat), l.foldl (fun acc j => acc + f j) a = a + (l.map f).sum := by
+    intro l
+    induction l with
+    | nil => simp
+    | cons x xs ih => intro a; simp only [List.foldl_cons, List.map_cons, List.sum_cons, ih]; omega
+  rw [this]; simp
+
+/-- `count_symbols` (one pass, `counts[c] += 1`) equals `count_symbol` for every symbol -/
+theorem countSymbolsFn_eq (seq : List Nat) (j : Nat) : countSymbolsFn seq j = countSymbol seq j := by
+  unfold countSymbolsFn countSymbol
+  have : ∀ (l : List Nat) (init : Nat → Nat),
+      l.foldl (fun cnt c => fun j => if j = c then cnt j + 1 else cnt j) init j
+        = init j + (l.filter (· == j)).length := by
+    intro l
+    induction l with
+    | nil => simp
+    | cons c cs ih =>
+      intro init
+      simp only [List.foldl_cons, ih, List.filter_cons]
+      by_cases h : j = c
+      · subst h; simp; omega
+      · have : ¬ c = j := fun e => h e.symm
+        simp [h, this]
+  rw [this]; simp
+
+theorem countSymbols_eq (K : Nat) (seq : List Nat) :
+    countSymbols K seq = (List.range K).map (countSymbol seq) := by
+  unfold countSymbols
+  apply List.map_congr_left
+  intro j _
+  exact countSymbolsFn_eq seq j
+
+/-- `Background::from_counts` rejects exactly the all-zero count vector … -/
+theorem bgFromCounts_err_iff (K : Nat) (counts : Nat → Nat) :
+    bgFromCounts (α := Rat) K counts = .error () ↔ ((List.range K).map counts).sum = 0 := by
+  unfold bgFromCounts
+  rw [natSum_eq]
+  by_cases h : ((List.range K).map counts).sum = 0 <;> simp [h]
+
+/-- … and otherwise returns `counts[j] / total`, a vector that `Background::new` accepts (every
+    entry in [0,1], sum one) -/
+theorem bgFromCounts_ok (K : Nat) (counts : Nat → Nat) (h : ((List.range K).map counts).sum ≠ 0) :
+    ∃ l : List Rat, bgFromCounts K counts = .ok l ∧ l.length = K ∧
+      (∀ j, j < K → l.getD j 0 = (counts j : Rat) / (((List.range K).map counts).sum : Nat)) ∧
+      bgNew l = .ok l := by
+  let total : Nat := ((List.range K).map counts).sum
+  have htot : (total : Rat) ≠ 0 := by exact_mod_cast h
+  have hpos : (0 : Rat) < total := by
+    have : 0 < total := Nat.pos_of_ne_zero h
+    exact_mod_cast this
+  refine ⟨(List.range K).map fun j => (counts j : Rat) / (total : Rat), ?_, by simp, ?_, ?_⟩
+  · unfold bgFromCounts
+    rw [natSum_eq]
+    simp only [h, if_false]
+    rfl
+  · intro j hj
+    simp [List.getD_eq_getElem?_getD, hj, total]
+  · rw [bgNew_ok_iff]
+    constructor
+    · intro f hf
+      rcases List.mem_map.mp hf with ⟨j, hj, rfl⟩
+      have hle : counts j ≤ total := by
+        have : counts j ∈ (List.range K).map counts := List.mem_map.mpr ⟨j, hj, rfl⟩
+        exact List.single_le_sum (fun x _ => Nat.zero_le x) _ this
+      have hle' : (counts j : Rat) ≤ total := by exact_mod_cast hle
+      constructor
+      · exact div_nonneg (by exact_mod_cast Nat.zero_le _) (le_of_lt hpos)
+      · rw [div_le_one hpos]; exact hle'
+    · rw [sum_map_div]
+      have : ((List.range K).map fun j => (counts j : Rat)).sum = (total : Rat) := by
+        show _ = ((((List.range K).map counts).sum : Nat) : Rat)
+        induction (List.range K) with
+        | nil => simp
+        | cons x xs ih => simp only [List.map_cons, List.sum_cons, ih]; push_cast; ring
+      rw [this]
+      exact div_self htot
+
+/-- `from_sequence` counts every symbol but (unless asked to) the wildcard, then normalises -/
+theorem bgFromSequence_eq (K dflt : Nat) (seq : List Nat) (unknown : Bool) :
+    bgFromSequence (α := Rat) K dflt seq unknown
+      = bgFromCounts K (fun c => if unknown || c != dflt then countSymbol seq c else 0) := rfl
+
+/-- `from_sequences` is `from_sequence` of the concatenation -/
+theorem bgFromSequences_eq (K dflt : Nat) (seqs : List (List Nat)) (unknown : Bool) :
+    bgFromSequences (α := Rat) K dflt seqs unknown = bgFromSequence K dflt seqs.flatten unknown := by
+  unfold bgFromSequences bgFromSequence
+  congr 1
+  funext c
+  have : ∀ (l : List (List Nat)) (init : Nat → Nat),
+      l.foldl (fun cnt seq => fun c => if unknown || c != dflt then cnt c + countSymbol seq c else cnt c)
+        init c = if unknown || c != dflt then init c + countSymbol l.flatten c else init c := by
+    intro l
+    induction l with
+    | nil => intro init; simp [countSymbol]
+    | cons x xs ih =>
+      intro init
+      simp only [List.foldl_cons, ih, List.flatten_cons]
+      by_cases h : (unknown || c != dflt) = true
+      · simp only [h, if_true, countSymbol, List.filter_append, List.length_append]; omega
+      · simp [h]
+  rw [this]
+  by_cases h : (unknown || c != dflt) = true <;> simp [h]
+
+/-- the uniform background is a valid background -/
+theorem bgUniform_valid (K : Nat) (hK : 2 ≤ K) :
+    bgNew (bgUniform (α := Rat) K (K - 1)) = .ok (bgUniform K (K - 1)) := by
+  rw [bgNew_ok_iff]
+  have hpos : (0 : Rat) < ((K - 1 : Nat) : Rat) := by
+    have : 0 < K - 1 := by omega
+    exact_mod_cast this
+  constructor
+  · intro f hf
+    unfold bgUniform at hf
+    rcases List.mem_map.mp hf with ⟨i, _, rfl⟩
+    by_cases h : (i != K - 1) = true
+    · simp only [h, if_true, rat_div, rat_one, rat_ofNat]
+      constructor
+      · exact div_nonneg (by norm_num) (le_of_lt hpos)
+      · rw [div_le_one hpos]
+        have : 1 ≤ K - 1 := by omega
+        exact_mod_cast this
+    · simp [h]
+  · unfold bgUniform
+    obtain ⟨n, rfl⟩ : ∃ n, K = n + 1 := ⟨K - 1, by omega⟩
+    simp only [Nat.add_sub_cancel] at hpos ⊢
+    rw [List.range_succ, List.map_append, List.sum_append]
+    have h1 : (List.range n).map (fun i => if (i != n) = true then div (one : Rat) (Arith.ofNat n) else zero)
+        = (List.range n).map (fun _ => (1 : Rat) / (n : Rat)) := by
+      apply List.map_congr_left
+      intro i hi
+      have : i ≠ n := by have := List.mem_range.mp hi; omega
+      simp [this]
+    rw [h1]
+    simp only [List.map_const', List.length_range, List.sum_replicate, List.map_cons, List.map_nil,
+      bne_self_eq_false, Bool.false_eq_true, if_false, List.sum_cons, List.sum_nil, rat_zero,
+      nsmul_eq_mul]
+    field_simp
+    ring
+
+/-- a scalar pseudocount applies to every symbol but the wildcard -/
+theorem pseudoUniform_get (K dflt : Nat) (c : Rat) (j : Nat) (hj : j < K) :
+    fnOf (pseudoUniform K dflt c) j = if j = dflt then 0 else c := by
+  unfold fnOf pseudoUniform
+  simp only [List.getD_eq_getElem?_getD, List.getElem?_map, List.getElem?_range hj, Option.map_some,
+    Option.getD_some]
+  by_cases h : j = dflt <;> simp [h]
+
+/-- the guard `row total ≠ 0` holds as soon as the pseudocounts are non-negative and one cell of
+    the row has a positive count or pseudocount -/
+theorem rowTotal_ne_zero {K : Nat} (c : Mat Nat K) (p : Nat → Rat) (i : Nat)
+    (hp : ∀ j, j < K → 0 ≤ p j) (hpos : ∃ j, j < K ∧ 0 < (c.get i j : Rat) + p j) :
+    rowTotal c p i ≠ 0 := by
+  rcases hpos with ⟨j, hj, h⟩
+  have hmem : (c.get i j : Rat) + p j ∈ (List.range K).map fun j => (c.get i j : Rat) + p j :=
+    List.mem_map.mpr ⟨j, List.mem_range.mpr hj, rfl⟩
+  have hnn : ∀ x ∈ (List.range K).map (fun j => (c.get i j : Rat) + p j), 0 ≤ x := by
+    intro x hx
+    rcases List.mem_map.mp hx with ⟨k, hk, rfl⟩
+    exact add_nonneg (by exact_mod_cast Nat.zero_le _) (hp k (List.mem_range.mp hk))
+  have := List.single_le_sum hnn _ hmem
+  unfold rowTotal
+  linarith
+
+/- non-vacuity: the README motif's first column (counts 0 0 0 2 0, pseudocount 0.1, uniform bg) -/
+def exC : Mat Nat 5 := Mat.ofFn 1 fun _ j => if j = 3 then 2 else 0
+def exP : Nat → Rat := fnOf (pseudoUniform 5 4 (1 / 10))
+
+example : rowTotal exC exP 0 = 12 / 5 ∧ rowTotal exC exP 0 ≠ 0 ∧
+    (toFreq exC exP).get 0 3 = 7 / 8 ∧ (toFreq exC exP).get 0 0 = 1 / 24 ∧
+    (toWeight (toFreq exC exP) (fnOf (bgUniform 5 4))).get 0 3 = 7 / 2 ∧
+    (toWeight (toFreq exC exP) (fnOf (bgUniform 5 4))).get 0 4 = 0 ∧
+    sumRange 5 ((toFreq exC exP).get 0) = 1 := by
+  decide +kernel
+
+end background
 
 end C09
 end LMV
